@@ -212,8 +212,17 @@ func marshal(name, desc string, f func() ([]byte, error)) ([]byte, bool) {
 			fmt.Sprintf("%s.Marshal returned error %q on in-domain value %s", name, err, desc), cs)
 		return nil, false
 	}
+	// the returned slice itself is kept (not the copy): a later Marshal of anything must not
+	// change it (an encoder handing out pooled/scratch memory)
+	if len(b) <= 1<<16 {
+		for _, tag := range heldOut.Hold(b, name) {
+			r.Violation(tag+".Marshal:held-output-changed", "bytes returned by an earlier "+tag+".Marshal changed after later Marshal calls (the result aliases reused memory)", cs)
+		}
+	}
 	return append([]byte(nil), b...), true
 }
+
+var heldOut = mon.NewHeldRing(64)
 
 // layout compares the library's encoding with the independent one (only for the
 // layouts the property's mechanism list names: little-endian fixed offsets, date
